@@ -24,6 +24,10 @@ RULE = ("fault enumeration on packets sealed by the harness's own MTProto 1.0 se
         "-33..-1 region, len-33..len+33, total-32, total-31, total, total+31..33, 65536, 2^30, 2^31-33..2^31-1} x msg_key span in "
         "{0, 32, 32+len, total, 32+declared}, and the honest plaintext under a msg_key differing in one bit (every byte). Each "
         "packet goes through the real DeserializeEncrypted, a share of them through transport.ReadMsg over loopback TCP; "
+        "c04.session: ONE transport (one loopback connection) reading several packets while the session's auth key "
+        "(GetAuthKey of the informator) changes between them - A then B (retired key's packets refused, new key's "
+        "accepted), A,B,A, key emptied / unusable in between, first packet foreign / unencrypted / refused / keyless, "
+        "random walks over three keys; each step judged as a routed packet under the key in force at that read; "
         "unencrypted packets: every truncation, declared length len-33..len+33 and extremes, wrong parity. Judge: never a panic; "
         "an accepted message must be what the independent specification receiver recovers from those bytes and have server "
         "parity; alterations must be errors; valid (re-)sealings must open to what was sealed. distinct = distinct operation "
